@@ -33,6 +33,7 @@ type vpTransport struct {
 	accepts, drains, ncloses int
 	yieldOnRead bool
 	stallWrites bool
+	drainFails  bool
 	corrupted   int
 }
 
